@@ -356,7 +356,7 @@ struct pmis {
         for(size_t i = 0, nv = C.send.count(); i < nv; ++i)
             D_loc[i] = D[C.send.col[i]];
 
-        C.exchange(&D_loc[0], &D_rem[0]);
+        C.exchange(D_loc.data(), D_rem.data());
 
         auto s_loc = std::make_shared<bool_matrix>();
         auto s_rem = std::make_shared<bool_matrix>();
@@ -467,7 +467,7 @@ struct pmis {
         // Exchange state
         for(ptrdiff_t i = 0, m = Sp.send.count(); i < m; ++i)
             send_state[i] = loc_state[Sp.send.col[i]];
-        Sp.exchange(&send_state[0], &rem_state[0]);
+        Sp.exchange(send_state.data(), rem_state.data());
 
         std::vector< std::vector<ptrdiff_t> > send_pts(Sp.recv.nbr.size());
         std::vector<ptrdiff_t> recv_pts;
@@ -597,7 +597,7 @@ struct pmis {
 
                 if (!npts) continue;
                 recv_pts.resize(npts);
-                MPI_Recv(&recv_pts[0], npts, datatype<ptrdiff_t>(), Sp.send.nbr[i], tag_exc_pts, comm, MPI_STATUS_IGNORE);
+                MPI_Recv(recv_pts.data(), npts, datatype<ptrdiff_t>(), Sp.send.nbr[i], tag_exc_pts, comm, MPI_STATUS_IGNORE);
 
                 for(int k = 0; k < npts; k += 2) {
                     ptrdiff_t c  = recv_pts[k] - Sp.loc_col_shift();
@@ -619,7 +619,7 @@ struct pmis {
 
             for(ptrdiff_t i = 0, m = Sp.send.count(); i < m; ++i)
                 send_state[i] = loc_state[Sp.send.col[i]];
-            Sp.exchange(&send_state[0], &rem_state[0]);
+            Sp.exchange(send_state.data(), rem_state.data());
 
             if (0 == comm.reduce(MPI_SUM, n_undone))
                 break;
@@ -630,7 +630,7 @@ struct pmis {
         AMGCL_TIC("drop empty aggregates");
         for(ptrdiff_t i = 0, m = Sp.send.count(); i < m; ++i)
             send_owner[i] = loc_owner[Sp.send.col[i]];
-        Sp.exchange(&send_owner[0], &rem_owner[0]);
+        Sp.exchange(send_owner.data(), rem_owner.data());
 
         std::vector<ptrdiff_t> new_id(naggr + 1, 0);
         for(ptrdiff_t i = 0; i < n; ++i) {
@@ -684,7 +684,7 @@ struct pmis {
 
                 if (!npts) continue;
                 recv_pts.resize(npts);
-                MPI_Recv(&recv_pts[0], npts, datatype<ptrdiff_t>(), Sp.send.nbr[i], tag_exc_pts, comm, MPI_STATUS_IGNORE);
+                MPI_Recv(recv_pts.data(), npts, datatype<ptrdiff_t>(), Sp.send.nbr[i], tag_exc_pts, comm, MPI_STATUS_IGNORE);
 
                 for(int k = 0; k < npts; k += 2) {
                     ptrdiff_t c  = recv_pts[k] - Sp.loc_col_shift();
